@@ -117,7 +117,7 @@ func (n *Nat) MulCap(lhs, rhs *Nat, capacity int) {
 // If r is not nil, it will be set it to the remainder.
 // It returns ok=true if the division was successful, ok=false otherwise (e.g., division by zero).
 // The number of bits of the quotient will be
-// min(numerator.AnnouncedLen(), numerator.AnnouncedLen() - denominator.TrueLen() + 2) and
+// min(numerator.AnnouncedLen(), max(numerator.AnnouncedLen() - denominator.TrueLen() + 2, 0)) and
 // the number of bits of the remainder will be denominator.TrueLen().
 func (n *Nat) EuclideanDivVarTime(remainder, numerator, denominator *Nat) ct.Bool {
 	if denominator.IsZero() != ct.False {
@@ -127,18 +127,23 @@ func (n *Nat) EuclideanDivVarTime(remainder, numerator, denominator *Nat) ct.Boo
 	nn := (*saferith.Nat)(numerator)
 	dd := saferith.ModulusFromNat((*saferith.Nat)(denominator))
 
+	// The default capacity of saferith's Div, x.AnnouncedLen() - m.BitLen() + 2,
+	// is negative (and makes it panic) when the numerator is much shorter than
+	// the denominator; the quotient is zero then.
+	numeratorLen := numerator.AnnouncedLen()
+	quotientLen := max(numeratorLen-dd.BitLen()+2, 0)
+
 	// The outputs may alias the inputs: finish reading numerator and
 	// denominator before writing to n or remainder.
-	numeratorLen := numerator.AnnouncedLen()
 	var qq, rr saferith.Nat
-	qq.Div(nn, dd, -1)
+	qq.Div(nn, dd, quotientLen)
 	if remainder != nil {
 		rr.Mul((*saferith.Nat)(denominator), &qq, -1)
 		rr.Sub(nn, &rr, -1)
 		rr.Resize(dd.BitLen())
 	}
 	((*saferith.Nat)(n)).SetNat(&qq)
-	((*saferith.Nat)(n)).Resize(min(numeratorLen, numeratorLen-dd.BitLen()+2))
+	((*saferith.Nat)(n)).Resize(min(numeratorLen, quotientLen))
 	if remainder != nil {
 		((*saferith.Nat)(remainder)).SetNat(&rr)
 	}
